@@ -10,7 +10,8 @@ COMMON_ASSUMPTIONS = [
 
 import gens
 
-GENERATORS = {"probe": gens.gen_probe, "c04_quick": gens.gen_c04("quick"), "c04_thorough": gens.gen_c04("thorough")}
+GENERATORS = {"probe": gens.gen_probe, "c04_quick": gens.gen_c04("quick"), "c04_thorough": gens.gen_c04("thorough"),
+              "c10_quick": gens.gen_c10("quick"), "c10_thorough": gens.gen_c10("thorough")}
 
 # interim reasons while the framework is being built (kept current with every commit)
 NOT_YET = {}
@@ -39,6 +40,22 @@ PROPS = {
         "tiers": {
             "quick": {"modules": ["g_c04_v3", "g_c04_v5"], "generators": ["c04_quick"], "timeout_s": 600, "mem_gb": 8, "jobs": 14},
             "thorough": {"modules": ["g_c04_v3", "g_c04_v5"], "generators": ["c04_thorough"], "timeout_s": 1200, "mem_gb": 10, "jobs": 12},
+        },
+    },
+    "C10": {
+        "level": "model_checking",
+        "claim": "For every enumerated canonical shape the packet value is built from symbolic field values inside the valid domain and the solver decides that "
+                 "Packet::encode and the streaming body encoder emit byte-for-byte the wire image written down from the OASIS specifications "
+                 "(type/flag nibbles, minimal remaining length, big-endian integers, length-prefixed strings, property ids and wire types, reason-code numbers).",
+        "note": "the spec wire image (tools/mqttgen.py) plays the role of the independent decoder: bytes == layout(fields) is equivalent to, and stronger than, "
+                "an independent decoder recovering the fields; constructors' validators replaced by class stubs (valid class)",
+        "functions": ["Packet::encode (v3, v5)", "encode_packet", "write_var_int", "every Encodable::encode", "encode_properties! expansions", "VarBytes::as_ref"],
+        "bounds": {"quick": "canonical shapes of the C04 catalogue (lengths 0..2, single properties, selected connect flags)", "thorough": "thorough C04 catalogue"},
+        "outside": "as C04; values whose encoding the encoder cannot emit (non-canonical spellings) are C11's subject",
+        "tiers": {
+            "quick": {"modules": ["g_c10_v3", "g_c10_v5"], "generators": ["c10_quick"], "timeout_s": 600, "mem_gb": 8, "jobs": 14,
+                      "heavy": {r"__encp$": (900, 20)}},
+            "thorough": {"modules": ["g_c10_v3", "g_c10_v5"], "generators": ["c10_thorough"], "timeout_s": 1200, "mem_gb": 10, "jobs": 12},
         },
     },
     "C19": {
